@@ -1316,6 +1316,12 @@ class Interp:
             return self.cast(self.eval_operand(fr, rv.a), rv.cache, rv.b, rv.c)
         if k == 'discriminant':
             v = self.read_place(fr, rv.a)
+            if v is UNINIT:
+                # rustc elides the copy of a single-variant (zero-sized) enum: its discriminant is a constant
+                t = self.place_type(fr.body, rv.a)
+                en = self.enum_variants(strip_generics(t).split('::')[-1]) if t else None
+                if en and len(en) == 1:
+                    return en[0][1]
             return self.discriminant_of(v)
         if k == 'tuple':
             return Tup([self.eval_operand(fr, o) for o in rv.a])
